@@ -3,8 +3,14 @@
 COMPONENTS = {
     "vv": {
         "coq_run_module": "Cluster.VVRun",
-        "accessors": {"internal/cluster/xv_acc_verif.go": "acc/cluster/xv_acc_verif.go"},
-        "what": "cluster.VersionVector: Compare/Merge/Increment/Compact/PruneWithMax/Get/Write/Read vs Cluster/VV.v",
+        "accessors": {"internal/cluster/xv_acc_verif.go": "acc/cluster/xv_acc_verif.go",
+                      "internal/cluster/xv_vvheap_verif.go": "acc/cluster/xv_vvheap_verif.go"},
+        "what": ("cluster.VersionVector: Compare/Merge/Increment/Compact/PruneWithMax/Get/Write/Read vs the functional model Cluster/VV.v "
+                 "(ops 0-7); whole histories over one family of vector objects (aliasing classes of the map objects, dirty flag, cache "
+                 "field, SortedEntries, the caller's slice of PruneWithMax) vs the HEAP-level model Cluster/VVHeap.v (op 8); "
+                 "AtomicVersionVector: sequential scripts (Load/Store/CompareAndSwap with arbitrary, current and stale old/Increment) vs the heap model "
+                 "of the pointer-based wrapper (op 9); really concurrent Increment loops (N goroutines x M calls) vs the small-step machine "
+                 "Cluster/VVAtomic.v (op 10: final vector and per-node successes/errors, schedule independent)"),
     },
 }
 
@@ -14,21 +20,32 @@ PROPERTIES = {
         "rule": ("exhaustive: all 64 vectors over nodes {a,b,c} with entries {absent,0,1,2} - every unary op and every ordered pair "
                  "(Compare, Merge) is compared with the model, triples are checked for the algebraic laws on the implementation; "
                  "random: names of length 0..259 (invalid ones included), counters from {0,1,2,3,max-1,max,max+1,2^64-1,random}; "
-                 "truncated/corrupted/garbage encodings through the reader. non-trivial = at least one operand non-empty "
-                 "(or an error outcome); distinct = distinct input terms"),
+                 "truncated/corrupted/garbage encodings through the reader; boundaries (every tier): counters "
+                 "{0,1,max-2,max-1,max,max+1,2^64-2,2^64-1} x addresses {1 byte, 256 bytes, typical} through Increment, the writer, the "
+                 "reader and Increment-then-wire; 65534/65535/65536 entries through writer and reader, headers announcing "
+                 "{0,1,65534,65535,65536,65537,2^31,2^32-1} entries; sessions: 150 (thorough 5000) histories of 6-19 steps over one "
+                 "family of objects (Increment incl. invalid address and overflow, Merge incl. self-merge, Clone, Write+Read, Compact, "
+                 "SortedEntries, PruneWithMax with a caller slice longer than the limit, Compare), ONE case per history holding every "
+                 "step's observation and the final state of every object; atomic: 120 (thorough 3000) sequential scripts of 3-10 calls on one "
+                 "AtomicVersionVector, every call under recover; 40 short + 3 long (thorough 600 + 20) concurrent runs of 2-8 goroutines x "
+                 "up to 43 (long: 400) Increment calls on nodes {a,b,c,''}, initial counters incl. max-3..max so that the cap is hit "
+                 "mid-run. non-trivial = at least one operand non-empty (or an error outcome, or "
+                 "a session/script); distinct = distinct input terms"),
         "modelled_not_verified": [
-            "Go map[string]uint64 = finite map (gmap); map iteration order is irrelevant to every modelled result",
-            "'operations never modify their operands' is vacuous in the functional model: decided on the implementation only (operand snapshots around every call)",
-            "AtomicVersionVector (atomic.Value wrapper) is not modelled",
+            "Go map[string]uint64 = finite map (gmap); a range loop visits every entry exactly once in an order chosen by the runtime: the heap-model theorems hold for EVERY such order (oracle iter with iter_ok), the executable instance alternates between two orders",
+            "the Go heap as modelled in Cluster/VVHeap.v: make allocates a location never used before; m[k]=c changes one map object; append into spare capacity writes one cell of the shared backing array; sort.Slice/sort.Strings permute the cells of one array in place; a struct copy shares map and slice (modelled, tied by the aliasing classes the harness observes through reflect pointers)",
+            "sizeHint and the capacity arguments of make, the growth factor of append beyond the capacity (only append([]string(nil), xs...) reallocates here), String/Nodes/MaxCounter/TotalCount (read-only loops) are not modelled",
+            "AtomicVersionVector: atomic.Pointer Load / Store / CompareAndSwap are sequentially consistent single steps (M1); the concurrent machine (Cluster/VVAtomic.v) interleaves Increment loops at exactly these steps and keeps vector VALUES in the boxes (that the heap programs compute these values and never write an existing object is proved separately in VVHeapProofs.v); callers other than Increment loops (Store, bare CompareAndSwap) are modelled sequentially only; the real concurrent runs use an uncontrolled schedule and are compared on the schedule-independent result",
+            "messages.Writer/Reader are the byte-level primitives of Codec/Prim.v (put_u32, put_lp4, put_u64); partial output of a failing WriteVersionVector is not modelled (only the error)",
         ],
     },
 }
 
 META = {
     "C16": {
-        "text": "22 kernel-checked theorems about the Gallina model of VersionVector (Compare = pointwise order of counters with absent=0; reflexive/converse/antisymmetric/transitive; Merge commutative, associative, idempotent as maps and the least upper bound; Increment strictly After with exact error characterisation; byte-level Read(Write v ++ rest) = (v, rest) for every vector within the caps), for all vectors over any node-id set. The model is tied to the Go code on every run by a differential check: exhaustive over the 64-vector small domain (all ops, all pairs) plus seeded random vectors with extreme counters and invalid addresses plus truncated/corrupted encodings; algebraic laws and operand immutability are also evaluated directly on the implementation.",
-        "design_ref": "DESIGN.md §4 C16",
-        "note": "Trusted: Coq kernel + vm_compute; ExtrOcamlBasic extraction (cross-checked by vm_compute on a sample each run); the harness; Go maps modelled as finite maps. 'Operands are never modified' is decided on the implementation only (vacuous in a functional model). AtomicVersionVector not modelled.",
-        "technique": "Coq proof (induction / finite-map extensionality) over a hand-written model + differential correspondence check against the Go code",
+        "text": "58 kernel-checked theorems. (1) The functional model of VersionVector (Cluster/VV.v): Compare = pointwise order of counters with absent=0; reflexive/converse/antisymmetric/transitive; Merge commutative, associative, idempotent as maps and the least upper bound; Increment strictly After with exact error characterisation; byte-level Read(Write v ++ rest) = (v, rest) for every vector within the caps. (2) NEW - a HEAP-level model (Cluster/VVHeap.v): a vector is a struct value whose map and cached slice are references into a shared heap, every method is a heap program (make / m[k]=c / range in an arbitrary order / append into spare capacity / in-place sort), and for every heap, every live operand and every map-iteration order each method (a) refines the functional model on the abstract values and (b) writes only into locations it allocated itself (C16_heap_*); by induction over ALL histories of operations on one family of objects: every vector keeps its abstract value for ever and every observer (SortedEntries, Write, Compare) run on it later returns what the functional model computes (C16_operands_never_modified, C16_session_refines), and the cache branch of SortedEntries is dead code (C16_cache_never_filled). (3) NEW - caps on both sides: the reader accepts exactly the vectors within the caps, which are exactly the API-buildable vectors of at most 65535 entries; counters producible by Increment = 1..2^63-1, counters accepted by the wire = 0..2^63-1; exact writer acceptance; wire format with strictly increasing addresses; the entry cap is enforced on the wire only (C16_roundtrip_beyond_entry_cap_refuted). (4) NEW - AtomicVersionVector (pointer-based since the repair 2f67bea, found by this check): sequentially CompareAndSwap swaps iff the stored value is Equal to old and then stores exactly new, Increment returns the Increment of the stored value, strictly After it, and stores it, errors leave the wrapper unchanged (C16_atomic_cas, C16_atomic_increment); concurrently, for ANY number of Increment loops and ANY schedule of their load / pointer-load / pointer-CAS steps, the stored vector is the initial one plus exactly one per successful call on each node - no lost update - with the successful CAS as linearisation point (C16_atomic_no_lost_update, C16_atomic_cas_step, C16_atomic_only_cas_writes, C16_atomic_error_step). The models are tied to the Go code on every run: exhaustive small domain + random + boundary cases against the functional model, whole aliasing sessions and sequential atomic scripts against the heap model, real concurrent Increment runs against the small-step machine, algebraic laws / operand immutability / Increment-then-wire evaluated directly on the implementation.",
+        "design_ref": "DESIGN.md §4 C16, notes/update_vv.md",
+        "note": "Trusted: Coq kernel + vm_compute; ExtrOcamlBasic extraction (cross-checked by vm_compute on a sample each run); the harness; the heap model's primitives (allocation freshness, one-object stores, struct copies share references) and Go maps as finite maps iterated in an arbitrary order. 'Operands are never modified' is now a theorem of the heap model for all histories and all iteration orders AND decided on the implementation (operand snapshots through every observer after every step). AtomicVersionVector: sequential heap model + concurrent small-step machine of Increment loops (atomic pointer operations assumed sequentially consistent).",
+        "technique": "Coq proof (induction / finite-map extensionality / frame + refinement over a heap model) over hand-written models + differential correspondence check against the Go code",
     },
 }
